@@ -23,6 +23,8 @@ func c16(p *core.Program, r *core.Report) {
 	c16GroupBy(p, r)
 	r.Rule("R5", "a row exists only if a container of it holds a bit: every function of package pilosa that turns container keys of fragment storage into row ids (key >> shardVsContainerExponent over a Containers iterator) tests the container's cardinality before it reports the row (clears leave empty containers behind)")
 	c16RowsFromKeys(p, r)
+	r.Rule("R6", "the filter flows down the levels: in newGroupByIterator every assignment that narrows rows[i].row by rows[i-1].row lies on a path where the filter was already intersected into rows[0].row, or was tested to be nil")
+	c16FilterFlowsDown(p, r)
 	r.NotDecided = "Rows paging and merge limits, the intersections computed by the GroupBy iterator, time-range handling: value/iteration logic"
 	pk := p.Pkg("")
 	if pk == nil {
